@@ -14,7 +14,7 @@ SCENARIOS = [
     (r'UpgradeToX', ['S_then_upgrade', 'S_before_SIX_upgrade']),
     (r'DowngradeToSIX', ['downgrade_then_S']),
     (r'UnlockSIX|SIXGuard', ['SIX_then_X']),
-    (r'UnlockS|SGuard|CompositeGuard', ['S_then_X']),
+    (r'UnlockS|SGuard|CompositeGuard', ['S_then_X', 'twoS_then_X']),
     (r'UnlockX|XGuard', ['X_then_S', 'X_then_X', 'X_then_SIX']),
     (r'LockSIX', ['X_then_SIX']),
     (r'LockS', ['X_then_S']),
